@@ -27,7 +27,7 @@ REQUIRED = ['sessions', 'stdin_reads_observed', 'child_reads_observed', 'escape_
             'mode_checks', 'bytes_to_child_compared', 'bytes_to_user_compared']
 
 FILTERS = {'upper': lambda b: b.upper(), 'double': lambda b: b + b, 'drop-x': lambda b: b.replace(b'x', b''),
-           'grow-a': lambda b: b.replace(b'a', b'aaa'), None: lambda b: b}
+           'grow-a': lambda b: b.replace(b'a', b'aaa'), 'slow': lambda b: b, None: lambda b: b}
 
 
 def gen_case(rng, for_log=False):
@@ -103,11 +103,24 @@ def gen_case(rng, for_log=False):
         filt_in = 'drop-x'
         k = rng.randint(0, max(0, len(steps) - 1))
         steps = steps[:k] + [['type', b'xx'.hex()], ['type', b'after-x'.hex()]] + steps[k:]
+    dead_first = None
+    if end == 'exit' and rng.random() < 0.3:
+        # the child says its last words and exits at once (while the copy loop may be busy with a slow filter), or
+        # has even written everything and exited before interact() is entered
+        n = rng.choice([1, 20, 600, 999, 1000, 1001, 2500, 3900])
+        words = bytes(rng.choice(b'abcdefghij\n') for _ in range(n))
+        if rng.random() < 0.35:
+            dead_first = words.hex()
+            steps = []
+        else:
+            steps = [s for s in steps if s[0] == 'out'][:2] + [['lastwords', words.hex()]]
+        if rng.random() < 0.6:
+            filt_out = 'slow'
     case = {'enc': rng.choice([None, 'utf-8']), 'poll': rng.random() < 0.4, 'escape': esc,
             'filters': {'input': filt_in,
                         'output': filt_out},
             'pending': rng.choice(['', '', 'PEND\xe9ing']), 'steps': steps, 'end': end, 'logs': [],
-            'prior': rng.random() < 0.3}
+            'prior': rng.random() < 0.3, 'dead_first': dead_first}
     if for_log:
         case['interact'] = True
         case['logs'] = rng.choice([['logfile'], ['logfile_read'], ['logfile_send'],
@@ -119,6 +132,7 @@ def run_session(case):
     """-> dict(observations) ; raises PeerError when the harness could not drive it"""
     cfg = {k: case[k] for k in ('enc', 'poll', 'escape', 'filters', 'pending', 'logs')}
     cfg['prior'] = bool(case.get('prior'))
+    cfg['dead_first'] = bool(case.get('dead_first'))
     S = Session(cfg)
     obs = {'returned': None, 'timeline': []}
     try:
@@ -137,17 +151,30 @@ def run_session(case):
         pend = case['pending'].encode('utf-8')
         if pend:
             pup.write(b'<<' + pend)
+        sent_first = b''
+        if case.get('dead_first'):
+            if S.expect_status('WAIT-DEATH', 20) is None:
+                raise PeerError('driver did not reach the point before interact()')
+            sent_first = bytes.fromhex(case['dead_first'])
+            pup.write(sent_first)
+            pup.exit(0)
+            os.write(S.go_w, b'd')
         if S.expect_status('INTERACT', 20) is None:
             raise PeerError('driver did not reach interact()')
-        if not S.wait_raw(10):
+        if not case.get('dead_first') and not S.wait_raw(10):
             raise PeerError('outer tty never became raw')
         fin = FILTERS[case['filters']['input']]
         escb = case['escape'].encode('latin-1') if case['escape'] else None
-        sent_out = b''
+        sent_out = sent_first
         typed_total = 0
         escaped = False
         for st in case['steps']:
             data = bytes.fromhex(st[1])
+            if st[0] == 'lastwords':
+                # the child's last output, followed at once by its exit
+                pup.write(data)
+                sent_out += data
+                break
             if st[0] == 'out':
                 pup.write(data)
                 sent_out += data
@@ -182,6 +209,9 @@ def run_session(case):
             if obs['returned'] is None:
                 obs['returned'] = S.expect_status('RETURNED', 15) is not None
             obs['child_rx'] = pup.received()
+        elif case.get('dead_first'):
+            obs['child_rx'] = b''
+            obs['returned'] = S.expect_status('RETURNED', 15) is not None
         else:
             obs['child_rx'] = pup.received()
             pup.exit(0, wait=False)
